@@ -287,6 +287,7 @@ type analysisRun struct {
 	workers int
 
 	sweepFrom       int // index of the first code-point-sweep input
+	chainsUpTo      int // random chains run on inputs below this index (not on the long tokens, not on the sweep)
 	allFeedersBelow int // inputs with a smaller index are run through every (feeder, filter) pair
 
 	mu       sync.Mutex
@@ -350,8 +351,8 @@ func (a *analysisRun) runRound(inputs [][]byte, lo, hi int) {
 	var list []task
 	for ci := len(a.cat.comps) - 1; ci >= 0; ci-- {
 		for l := lo; l < hi; l += sub {
-			if a.cat.comps[ci].randomChain && l >= a.sweepFrom {
-				break // the code point sweep is for the registered and hand-configured components
+			if a.cat.comps[ci].randomChain && l >= a.chainsUpTo {
+				break // long tokens and the code point sweep are for the registered and hand-configured components
 			}
 			h := l + sub
 			if h > hi {
@@ -404,7 +405,7 @@ func (a *analysisRun) runRound(inputs [][]byte, lo, hi int) {
 				var pairs []pair
 				jt := jtask{C: c.id()}
 				for ii := t.lo; ii < t.hi; ii++ {
-					if c.randomChain && ii >= a.sweepFrom {
+					if c.randomChain && ii >= a.chainsUpTo {
 						break
 					}
 					feeders := []*comp{nil}
